@@ -32,7 +32,7 @@ func c06Check(t vt.TB, rec *stats.Recorder, c *gcmCase) bool {
 	}
 	in := [][]byte{append([]byte(nil), c.Nonce...), append([]byte(nil), c.PT...), append([]byte(nil), c.AAD...)}
 	var got []byte
-	if p := vt.Catch(func() { got = a.Seal(nil, c.Nonce, c.PT, c.AAD) }); p != nil {
+	if p := vt.Catch(func() { c.dirty(); got = a.Seal(nil, c.Nonce, c.PT, c.AAD) }); p != nil {
 		vt.Fail(t, rec, "C06:seal:panic", "Seal panicked: %v\n%v", p, c.sample())
 		return false
 	}
